@@ -670,8 +670,18 @@ func isOverloadFunc(name string) bool {
 }
 
 func initGopPkg(ctx *pkgCtx, pkg *gogen.Package, gopSyms map[string]bool) {
-	for name, f := range ctx.syms {
-		if gopSyms[name] {
+	// load in a fixed order: loaders report errors as they run, and the
+	// order of a map iteration changes from run to run
+	names := make([]string, 0, len(ctx.syms))
+	for name := range ctx.syms {
+		if !gopSyms[name] {
+			names = append(names, name)
+		}
+	}
+	sort.Strings(names)
+	for _, name := range names {
+		f, ok := ctx.syms[name]
+		if !ok { // already loaded (and removed) as a dependency of an earlier symbol
 			continue
 		}
 		if _, ok := f.(*typeLoader); ok {
